@@ -162,9 +162,6 @@ func targets(full bool) []*target {
 // the ~1000 AES-CTR-HMAC parameter combinations, of which every eighth (rotating with the seed) is core.
 func core(t *target, ti int) bool {
 	every := 8
-	if *prop == "C02" {
-		every = 16
-	}
 	return t.Mode != "keyset" || len(t.Keys) > 1 || t.Keys[0].KT != "AESCTRHMAC" || ti%every == int(vt.Seed())%every
 }
 
